@@ -92,7 +92,7 @@ func init() {
 	register(rulePanicParse, ruleParseResult)
 	addProp(&PropSpec{
 		ID:          "C04",
-		Rules:       []string{"R-PANIC-PARSE", "R-PARSE-RESULT", "R-NILNODE", "R-REGEXFLAGS", "R-VALIDATE", "R-COMMENT"},
+		Rules:       []string{"R-PANIC-PARSE", "R-PARSE-RESULT", "R-NILNODE", "R-REGEXFLAGS", "R-VALIDATE", "R-COMMENT", "R-TOKENRANGE", "R-ERRDISCARD"},
 		Explanation: "Totality of Parse as a shape of the code: every construct that can raise a panic explicitly below Parse/Scan/Unmarshal* is enumerated over the call graph and must be contained by a recovering root that returns the documented error.",
 		Decided:     []string{"R-PANIC-PARSE: explicit panics, Must* calls and comma-less type assertions below the parse roots are contained by a deferred recover in parser.Parse that reports ErrParse", "R-PARSE-RESULT: (tree, nil) or (nil, sentinel-wrapped error) at every level; MustParse panics exactly on the error branch", "R-NILNODE: no action publishes a nil node without recording an error", "R-REGEXFLAGS: every like_regex accepted at parse time compiles at execution time (flag translation for all 32 flag sets; same pattern and flags validated, stored, compiled; the validator accepts only after regexp/syntax.Parse succeeded)", "R-VALIDATE: `@` outside a filter and `last` outside a subscript are rejected, and accepted inside: decision table of the placement validator over node kind × depth × in-subscript, for every recursive call on every path"},
 		NotDecided:  []string{"termination of the lexer loops", "the goyacc runtime (trusted)", "size limits of regexp compilation"},
@@ -171,7 +171,7 @@ func init() {
 func init() {
 	addProp(&PropSpec{
 		ID:          "C03",
-		Rules:       []string{"R-GRAMSYNC", "R-PREC", "R-KEYWORDS", "R-VOCAB", "R-OPTOKENS", "R-LEXRESET", "R-PRED", "R-NILNODE", "R-RUNEWRITE", "R-COMMENT", "R-FOLD", "R-NUMLIT", "R-EMPTYPROD", "R-RUNESTEP", "R-RUNEERR", "R-NARROW"},
+		Rules:       []string{"R-GRAMSYNC", "R-PREC", "R-KEYWORDS", "R-VOCAB", "R-OPTOKENS", "R-LEXRESET", "R-PRED", "R-NILNODE", "R-RUNEWRITE", "R-COMMENT", "R-FOLD", "R-NUMLIT", "R-EMPTYPROD", "R-RUNESTEP", "R-RUNEERR", "R-NARROW", "R-TOKENRANGE", "R-ERRDISCARD"},
 		Explanation: "'Every spelling parses to the tree the grammar assigns it' has a large structural part: the compiled parser must be the grammar (goyacc is re-run and the result compared as syntax trees), the grammar must be conflict-free so that the precedence declarations decide nesting, the keyword table must agree with the grammar's tokens and key names, keywords that the printer emits must lead back to the same constants, the token buffer must never be dropped without an error, and the predicate flag must be set by exactly one production. These are agreements between sibling tables (lexer, grammar, generated parser, printer), decided from the sources.",
 		Decided: []string{"R-GRAMSYNC: grammar.go = goyacc(grammar.y); 0 conflicts", "R-PREC: declared precedence/associativity ↔ operator constants (via the actions)",
 			"R-KEYWORDS: one lower-case spelling per keyword token, true/false/null case-sensitive, every keyword usable as key name", "R-VOCAB: printed keyword → lexer → token → production → same constant",
